@@ -126,7 +126,7 @@ func cmdCheck(args []string) int {
 		fmt.Println("check is broken:", err)
 		return 3
 	}
-	run := &checkRun{spec: spec, tier: *tier, seed: seed, known: map[string]KnownFinding{}, timeout: 10 * time.Second}
+	run := &checkRun{spec: spec, tier: *tier, seed: seed, known: map[string]KnownFinding{}, timeout: 25 * time.Second}
 	if *tier == "thorough" {
 		run.timeout = 60 * time.Second
 	}
